@@ -1160,7 +1160,8 @@ func litestream.(*DB).snapshotReader$1()
 // The position handed to the snapshot encoder: captured under the executor semaphore, WAL end clamped to the header size.
 func litestream.(*DB).snapshotPosition(db, ctx) (p, err)
   requires db != nil
-  modifies $heap, $alloc, file_closed, pos_verifyErr
+  modifies $heap, $alloc, file_closed, pos_verifyErr, swe_s1, swe_s2, swe_read
+  at litestream.(*DB).snapshotWALEndOffset#1 reset swe_read = false
   at litestream.(*DB).Pos#1 reset pos_verifyErr = nil
   ensures [C02.snap-end] err == nil ==> p.walEndOffset >= 32 && p.pageSize != 0 && p.db == db
 
